@@ -178,7 +178,9 @@ def draw_options(rng, fmt, trajs, ref, meta, work, force=None):
         argv += ["--n_to_align", str(o["n_to_align"])]
     if fmt != "kitti":
         o["t_max_diff"] = float(meta["dt"] * 10.0**rng.uniform(-1, 0.5))
-        argv += ["--t_max_diff", repr(o["t_max_diff"])]
+        if rng.random() < .1:
+            o["t_max_diff"] = 0.0  # legal: only identical stamps are associated
+        argv += ["--t_max_diff", ["0", "0.0"][rng.integers(2)] if o["t_max_diff"] == 0 else repr(o["t_max_diff"])]
     if on("transform", .4):
         o["right"] = bool(rng.random() < .5)
         o["propagate"] = o["right"] and bool(rng.random() < .4)
